@@ -310,10 +310,17 @@ def read_sim_trace(path):
 # --------------------------------------------------------------------------
 # known findings, replays, evidence
 def load_findings(pid):
-    p = os.path.join(VERIF, 'known_findings.json')
-    if not os.path.exists(p):
-        return []
-    return [f for f in json.load(open(p)) if pid in f.get('properties', [f.get('property')]) and f.get('status') == 'known']
+    """known findings of a property: /verif/known_findings.json plus /verif/findings.d/*.json (lists of entries).
+    Read-only at run time."""
+    out = []
+    files = [os.path.join(VERIF, 'known_findings.json')]
+    d = os.path.join(VERIF, 'findings.d')
+    if os.path.isdir(d):
+        files += [os.path.join(d, f) for f in sorted(os.listdir(d)) if f.endswith('.json')]
+    for p in files:
+        if os.path.exists(p):
+            out += [f for f in json.load(open(p)) if pid in f.get('properties', [f.get('property')]) and f.get('status') == 'known']
+    return out
 
 
 class Check(object):
